@@ -146,6 +146,14 @@ where
     /// ```
     pub fn find(&self, prefix: P) -> Option<TrieView<'a, P, T>> {
         let mut idx = self.loc.idx();
+        // if `prefix` lies above the first real node of this view, it selects the entire view.
+        let root_p = &self.table[idx].prefix;
+        if prefix.prefix_len() < root_p.prefix_len() && prefix.contains(root_p) {
+            return Some(Self {
+                table: self.table,
+                loc: ViewLoc::Virtual(prefix, idx),
+            });
+        }
         loop {
             match self.table.get_direction_for_insert(idx, &prefix) {
                 DirectionForInsert::Enter { next, .. } => {
@@ -694,6 +702,11 @@ where
         // is still not covered by any other view), while dropping `self`.
 
         let mut idx = self.loc.idx();
+        // if `prefix` lies above the first real node of this view, it selects the entire view.
+        let root_p = &self.table[idx].prefix;
+        if prefix.prefix_len() < root_p.prefix_len() && prefix.contains(root_p) {
+            return unsafe { Ok(Self::new(self.table, ViewLoc::Virtual(prefix, idx))) };
+        }
         loop {
             match self.table.get_direction_for_insert(idx, &prefix) {
                 DirectionForInsert::Enter { next, .. } => {
